@@ -798,6 +798,8 @@ class Samples(object):
         for i in range(n_chains):
             if self.geometry != chains[i].geometry:
                 raise TypeError(f"Geometry of chain {i} does not match Samples geometry.")
+            if chains[i].samples.shape != self.samples.shape:
+                raise ValueError(f"Shape of samples in chain {i} {chains[i].samples.shape} does not match shape of Samples {self.samples.shape}.")
 
         if len(self.samples.shape) != 2:
             raise TypeError("Raw samples within each chain must have len(shape)==2, i.e. (variable, draws) structure.")
